@@ -14,6 +14,7 @@ structure StackSt where
   iterTarget : Option Iter := none
   static_ : Option Static := none
   src : Option Src := none
+  arena : Option Arena := none
   /-- source description for `new` (from the header) -/
   subject : String := ""
 
@@ -217,6 +218,49 @@ def srcStep (st : StackSt) (op : List String) (env : List (Option Nat)) : StackS
     | ["move_assign"] => (st, "done", "", s.str)
     | ["swap"] => (st, "done", "", s.str)
     | ["destroy"] => ({ st with src := none }, "done", "", "-")
+    | _ => (st, "bad-op", "", "-")
+
+/-- a `memory_arena` driven directly (C05/C08/C12): cached or uncached, over a growing or a fixed block source -/
+def arenaStep (st : StackSt) (op : List String) (env : List (Option Nat)) : StackSt × String × String × String :=
+  let cfg := st.cfg
+  match op with
+  | ["new", b, c] =>
+    let src : Src := if (st.subject.splitOn "-").getD 1 "" = "fixed" then .fixed (nat! b) else .growing 2 1 (nat! b)
+    let a : Arena := { src := src, isCached := c = "1" }
+    ({ st with arena := some a }, "done", "", a.str)
+  | _ =>
+  match st.arena with
+  | none => (st, "no-object", "", "-")
+  | some a =>
+    match op with
+    | ["alloc_block"] =>
+      match a.allocateBlock env with
+      | .envMissing => (st, "env-missing", "", a.str)
+      | .fail a' e ev _ => ({ st with arena := some a' }, outStr (.throws e), upStr ev, a'.str)
+      | .ok a' b ev _ => ({ st with arena := some a' }, s!"blk {b.base} {b.size}", upStr ev, a'.str)
+    | ["dealloc_block"] =>
+      match a.deallocateBlock cfg with
+      | none => (st, "crash", "", a.str)
+      | some (a', ev, chk) =>
+        (match chk with
+         | some k => (st, outStr (.handler k), "", a.str)
+         | none => ({ st with arena := some a' }, "done", upStr ev, a'.str))
+    | ["shrink"] =>
+      let (a', ev, _) := a.shrinkToFit cfg
+      ({ st with arena := some a' }, "done", upStr ev, a'.str)
+    | ["owns", p] => (st, if a.owns (nat! p) then "true" else "false", "", a.str)
+    | ["size"] => (st, (Out.num a.used.length).str, "", a.str)
+    | ["cache_size"] => (st, (Out.num a.cached.length).str, "", a.str)
+    | ["capacity"] => (st, (Out.num (a.used.length + a.cached.length)).str, "", a.str)
+    | ["next_block_size"] => (st, (Out.num a.nextBlockSize).str, "", a.str)
+    | ["current_block"] =>
+      (st, match a.currentBlock with | some b => s!"blk {b.base} {b.size}" | none => "crash", "", a.str)
+    -- the new owner has the state of the source; the object left behind is destroyed without any upstream traffic
+    | ["move"] => (st, "done", "", a.str)
+    | ["move_assign"] => (st, "done", "", a.str)
+    | ["destroy"] =>
+      let (_, ev, _) := a.destroy cfg
+      ({ st with arena := none }, "done", upStr ev, "-")
     | _ => (st, "bad-op", "", "-")
 
 def staticStep (st : StackSt) (op : List String) : StackSt × String × String × String :=
